@@ -126,12 +126,18 @@ func c19Serve(preset string, f func(c *rux.Context)) (*httptest.ResponseRecorder
 		preset = strings.TrimPrefix(preset, "status500|")
 		r.Use(func(c *rux.Context) { c.SetStatus(500) })
 	}
+	// ... or may have recorded an error (no OnError hook is installed): the helper's response is not affected
+	if strings.HasPrefix(preset, "erred|") {
+		preset = strings.TrimPrefix(preset, "erred|")
+		r.Use(func(c *rux.Context) { c.AddError(errors.New("recorded by an earlier middleware")) })
+	}
 	r.GET("/x", func(c *rux.Context) {
 		if preset != "" {
 			c.SetHeader("Content-Type", preset)
 		}
+		n0 := len(c.Errors)
 		f(c)
-		errs = append(errs, c.Errors...)
+		errs = append(errs, c.Errors[n0:]...)
 	})
 	w := httptest.NewRecorder()
 	req := httptest.NewRequest("GET", "/x", nil)
@@ -255,7 +261,7 @@ func c19Run(c c19Case, st *fw.Stats) []fw.Viol {
 			switch c.Helper {
 			case "Text", "HTML", "JSONBytes", "Blob", "Stream":
 				for _, s := range c19Strings {
-					for _, preset := range []string{"", "x/custom", "status500|"} {
+					for _, preset := range []string{"", "x/custom", "status500|", "erred|"} {
 						s, status := s, status
 						ct := map[string]string{"Text": "text/plain; charset=utf-8", "HTML": "text/html; charset=utf-8", "JSONBytes": "application/json; charset=utf-8", "Blob": "app/blob", "Stream": "app/stream"}[c.Helper]
 						w, _, pv := c19Serve(preset, func(ctx *rux.Context) {
@@ -310,7 +316,7 @@ func c19Run(c c19Case, st *fw.Stats) []fw.Viol {
 				}
 			case "JSON", "JSONP", "XML":
 				for _, v := range c19Values() {
-					for _, preset := range []string{"", "x/custom", "status500|"} {
+					for _, preset := range []string{"", "x/custom", "status500|", "erred|"} {
 						v, status := v, status
 						// the callback name is emitted as given
 						cbName := c19Callbacks[(status/100+len(preset))%len(c19Callbacks)]
@@ -320,7 +326,7 @@ func c19Run(c c19Case, st *fw.Stats) []fw.Viol {
 							continue
 						}
 						ct := map[string]string{"JSON": "application/json; charset=utf-8", "JSONP": "application/javascript; charset=utf-8", "XML": "application/xml; charset=utf-8"}[c.Helper]
-						if preset != "" && preset != "status500|" {
+						if preset != "" && preset != "status500|" && preset != "erred|" {
 							ct = preset // the renderers never override a Content-Type that is already set
 						}
 						w, errs, pv := c19Serve(preset, func(ctx *rux.Context) {
@@ -396,8 +402,10 @@ func c19Run(c c19Case, st *fw.Stats) []fw.Viol {
 					}
 				}
 			case "NoContent":
-				w, _, pv := c19Serve("", func(ctx *rux.Context) { ctx.NoContent() })
-				check("NoContent()", w, pv, 204, "*", func(b []byte) bool { return len(b) == 0 })
+				for _, preset := range []string{"", "status500|", "erred|"} {
+					w, _, pv := c19Serve(preset, func(ctx *rux.Context) { ctx.NoContent() })
+					check(fmt.Sprintf("NoContent() preset %q", preset), w, pv, 204, "*", func(b []byte) bool { return len(b) == 0 })
+				}
 			case "Redirect":
 				if status < 300 || status > 399 {
 					continue
@@ -586,7 +594,7 @@ func c19Run(c c19Case, st *fw.Stats) []fw.Viol {
 var c19Spec = fw.Spec[c19Case]{
 	ID:    "C19",
 	Level: "model_checking",
-	Rule: "complete product: every helper on the context of a handler used directly as http.Handler; every helper alone on a fresh router after every ordered pair of 13 helper calls built one earlier response (differential against the pristine process); 11 context helpers x 8 status codes x value alphabets (7 strings with HTML / unicode / control characters; maps, structs, pointers, byte and int slices, scalars; unencodable chan / func / NaN / Inf / cyclic values) x preset Content-Type absent / present x another status already selected by an earlier handler; 11 pkg/render functions x 3 preset Content-Types; render.Auto x ALL Accept lists of <=3 (thorough 4) entries over 10 entries (the five supported MIME strings, foo/bar, */*, q-parameters, empty); " +
+	Rule: "complete product: every helper on the context of a handler used directly as http.Handler; every helper alone on a fresh router after every ordered pair of 13 helper calls built one earlier response (differential against the pristine process); 11 context helpers x 8 status codes x value alphabets (7 strings with HTML / unicode / control characters; maps, structs, pointers, byte and int slices, scalars; unencodable chan / func / NaN / Inf / cyclic values) x preset Content-Type absent / present x another status already selected by an earlier handler / an error already recorded by an earlier middleware (no OnError hook); 11 pkg/render functions x 3 preset Content-Types; render.Auto x ALL Accept lists of <=3 (thorough 4) entries over 10 entries (the five supported MIME strings, foo/bar, */*, q-parameters, empty); " +
 		"oracle: recorded status, documented Content-Type (preset preserved by every pkg/render renderer), body decodes back (JSONP unwrapped), first supported entry wins, encoding failures land in Context.Errors / the returned error; every evaluation is non-trivial except single-entry Accept lists",
 	Assume: []string{"text/html negotiation is the code's documented no-op and is modelled as such", "XML round trips use one struct type; encoding/xml has no cycle detection so cyclic values are not offered to it"},
 	Bounds: func(tier string) map[string]any {
